@@ -43,6 +43,9 @@ pub struct Hooks {
     pub thread_enter: fn(role: &'static str),
     /// Called before joining the thread with the given id.
     pub before_join: fn(id: std::thread::ThreadId),
+    /// Cooperative fault point: `Some(errno)` makes the system call at `label` fail with that
+    /// errno without being issued (e.g. `EINTR` from `epoll_wait`).
+    pub inject_errno: fn(label: &'static str) -> Option<i32>,
 }
 
 static HOOKS: AtomicPtr<Hooks> = AtomicPtr::new(std::ptr::null_mut());
@@ -73,6 +76,12 @@ pub fn point(label: &'static str) {
     if let Some(h) = task_hooks() {
         (h.point)(label)
     }
+}
+
+/// `Some(errno)` when the simulator wants the system call at `label` to fail that way.
+#[inline]
+pub fn inject_errno(label: &'static str) -> Option<i32> {
+    task_hooks().and_then(|h| (h.inject_errno)(label))
 }
 
 #[inline]
